@@ -148,8 +148,12 @@ var anyType = reflect.TypeOf((*any)(nil)).Elem()
 
 // c12Build constructs the Go value and its model.
 func c12Build(s GSpec) gBuilt {
-	if s.E == nil && s.K != "static" {
+	if s.E == nil && s.K != "static" && s.K != "casemap" {
 		return c12BuildLeaf(s)
+	}
+	if s.K == "casemap" {
+		v := map[string]any{"name": "lower", "Name": "upper", "id": 1, "ID": 2, "Url": "U"}
+		return gBuilt{reflect.ValueOf(v), vObj("name", vStr("lower"), "Name", vStr("upper"), "id", vInt(1), "ID", vInt(2), "Url", vStr("U")), true, false}
 	}
 	if s.K == "static" {
 		v := C12Static{Name: "top", hidden: 7, Inner: &C12Static{Name: "in", Any: int8(3)}, Any: []int{4}, List: []C12Static{{Name: "l0"}}}
@@ -260,7 +264,7 @@ func c12Specs(depth int) []GSpec {
 	for _, l := range levels {
 		all = append(all, l...)
 	}
-	all = append(all, GSpec{K: "static"})
+	all = append(all, GSpec{K: "static"}, GSpec{K: "casemap"})
 	return all
 }
 
